@@ -118,6 +118,7 @@ class PyCdlibIO(io.RawIOBase):
             data = self._fp.read(readsize)
             n = len(data)
             m[:n] = data
+            self._offset += n
         else:
             n = 0
 
